@@ -9,6 +9,8 @@ ops (applied to the tree state of the left-hand parent; a root starts from the e
   ["add", fid, parent_fid|None, name, kind, data, exec]   data = content bytes / symlink target str / None
   ["mod", fid, data]   ["exec", fid, bool]   ["mv", fid, parent_fid|None, name]   ["rm", fid]
   ["take", fid, k]     take the entry's state from parent number k (if it has the file)
+  ["merge", k]         what a real merge does with parent k: its entries that are missing here are added
+                       (same ids, where the place is free), entries present on both sides take its content
 """
 import json
 import os
@@ -122,6 +124,23 @@ def _apply_ops(state, ops, parent_states):
                         changed = True
             for k in doomed:
                 del st[k]
+        elif what == "merge":
+            _, k = op
+            if k >= len(parent_states):
+                continue
+            other = parent_states[k]
+            for fid in _depth_order(other):
+                e = other[fid]
+                if fid in st:
+                    if e["kind"] == st[fid]["kind"] and e["kind"] != "directory":
+                        st[fid]["data"], st[fid]["exec"] = e["data"], e["exec"]
+                    continue
+                par = e["parent"]
+                if par is not None and (par not in st or st[par]["kind"] != "directory"):
+                    continue
+                if any(x["parent"] == par and x["name"] == e["name"] for x in st.values()):
+                    continue
+                st[fid] = dict(e)
         elif what == "take":
             _, fid, k = op
             if k < len(parent_states) and fid in parent_states[k] and fid in st:
@@ -390,9 +409,31 @@ MESSAGES = ["msg", "two\nlines", "unicode \u00e9 \u4e2d", "trailing newline\n", 
 COMMITTERS = ["Joe <joe@example.com>", "J\u00f6e B\u00e4r <j@x>", "nomail", "Nfd e\u0301 <n@x> "]
 
 
-def gen_spec(rng, n, fmt, odd=False, ghosts=False, big=False, ml_props=False):
+def long_side_graph(rng, side):
+    """trunk 0-1, a side branch of `side` commits off 1, then a merge on the UNMOVED trunk (parents [1, tip]),
+    optionally some more trunk / a second merge: the left-hand parent of the merge was installed more than
+    `side` inventories ago (RevisionInstaller keeps 10 inventories in memory)"""
+    g = [[], [0]]
+    tip = 1
+    for _ in range(side):
+        g.append([tip])
+        tip = len(g) - 1
+    g.append([1, tip])
+    m = len(g) - 1
+    if rng.random() < 0.5:
+        g.append([m])
+    if rng.random() < 0.4:
+        g.append([0, len(g) - 1])          # an even older left-hand parent
+    return g
+
+
+def gen_spec(rng, n, fmt, odd=False, ghosts=False, big=False, ml_props=False, shape="random"):
     import daglib
-    g = daglib.gen_dag(rng, n, p_merge=0.4, p_ghost=0.08 if ghosts else 0.0, p_left_ghost=0.0, p_root=0.04)
+    if shape == "longside":
+        g = long_side_graph(rng, max(n, 11))
+        n = len(g)
+    else:
+        g = daglib.gen_dag(rng, n, p_merge=0.4, p_ghost=0.08 if ghosts else 0.0, p_left_ghost=0.0, p_root=0.04)
     # WorkingTree.set_parent_ids keeps only heads (the left-hand parent always stays)
     for i, ps in enumerate(g):
         keep = []
@@ -429,11 +470,19 @@ def gen_spec(rng, n, fmt, odd=False, ghosts=False, big=False, ml_props=False):
             elif r < 0.68 and files:
                 ops.append(["exec", rng.choice(files), rng.random() < 0.5])
             elif r < 0.86 and cur:
-                ops.append(["mv", rng.choice(sorted(cur)), rng.choice(dirs), rng.choice(names)])
+                fid = rng.choice(sorted(cur))
+                ops.append(["mv", fid, rng.choice(dirs), rng.choice(names)])
+                kids = [f for f in files if cur[f]["parent"] == fid]
+                if kids and rng.random() < 0.6:
+                    # a child changed in place below a directory that moves in the same revision
+                    kid = rng.choice(kids)
+                    ops.append(rng.choice([["mod", kid, rng.choice(texts)], ["exec", kid, not cur[kid]["exec"]]]))
             elif r < 0.92 and cur:
                 ops.append(["rm", rng.choice(sorted(cur))])
             elif len(present) > 1 and cur:
                 ops.append(["take", rng.choice(sorted(cur)), rng.randrange(1, len(present))])
+        if len(present) > 1 and (shape == "longside" or rng.random() < 0.5):
+            ops.insert(0, ["merge", rng.randrange(1, len(present))])
         ops_all.append(ops)
         states.append(_apply_ops(st, ops, pstates))
     meta = []
@@ -482,7 +531,7 @@ class _Cwd:
         os.chdir(self.old)
 
 
-HANG_SECONDS = 20
+HANG_SECONDS = 12
 
 
 def _in_child(fn, seconds):
